@@ -9,6 +9,14 @@ CHECKS = {
          'Seeded histories of mutating commands by 2-4 sessions (including stale UID targets), with quiescent points at which every session sends NOOP/CHECK and its shadow view (UIDs + believed flags) must equal a read-only probe dump of the mailbox.',
          'Trusted: probe dump through the real server is the ground truth; shadow .SILENT bookkeeping follows PERMANENTFLAGS as advertised.'),
 }
+CHECKS.update({
+ 'C16': ('exploration', '4/C16', 'seeded search over idler/writer schedules with held drains; bounded-liveness oracle (3 virtual s, no stimulus)',
+         'Idling sessions and writers under a seeded scheduler, with the idler\'s drain() held across later changes; after the burst the simulator runs 3 virtual seconds with no input and the idler\'s shadow view must equal a probe dump; DONE must give OK, anything else BAD; pushed data obeys the C01 numbering rules.',
+         'Trusted: as C01; the liveness bound (3 virtual seconds) is part of the oracle.'),
+ 'C17': ('exploration', '4/C17', 'seeded search over select/examine/close/append orders; recent-exclusivity model',
+         'Seeded histories of deliveries/APPEND/COPY/MOVE with 1-3 sessions selecting, examining, closing, reselecting and disconnecting; oracle: every (mailbox, UID) is seen \\Recent by at most one read-write selection, RECENT counts equal the flags shown, STORE of \\Recent has no effect, an arrival with nobody selected is \\Recent for the first read-write SELECT (asserted only in unambiguous histories), and a read-only probe never sees \\Recent stored.',
+         'Trusted: as C01; garbage collection is run when a connection ends (otherwise only reference counting), which fixes who is still "selected".'),
+})
 NOT_YET = {}
 def main():
     props = [json.loads(l) for l in open(os.path.join(ROOT, 'properties.jsonl'))]
